@@ -29,9 +29,11 @@
                        "childset" / "with": l := p.New(name, options), p.New(name) + setters,
                        p.With<Mode>(b) + setters).  calls = sequence of [op, arg] with
                        op in {"json", "color"}, arg in {"def", "on", "off"} - every order.
-     Emit(l, r)        logger l logs a record of class r = [sev, msg, args, caller, cls] through a
+     Emit(l, r)        logger l logs a record of class r = [sev, msg, args, caller, cfile, cls] through a
                        public entry point (Info..., XxxContext, LogAttrs): message classes incl.
-                       multi-line and BIG ones, call-site attributes incl. errors and groups.
+                       multi-line and BIG ones, call-site attributes incl. errors and groups; with
+                       caller the statement sits in a source file whose name carries a character
+                       of class cfile ("plain": an ordinary path; others: behind a //line directive).
      GC(n)             n garbage collections (sync.Pool contents dropped).
      Register(c, g)    slog.RegisterLevel(c, title, options of form g).
      Switch(k, v)      some logger is switched to DebugLevel / TraceLevel in way v (the library
@@ -73,7 +75,7 @@ CONSTANTS Loggers,                \* logger slots, 1..n
           InitMode, InitNamed,    \* slot -> mode / BOOLEAN of the logger Reset creates
           Own,                    \* slot -> attributes of the logger (sequence of Encoder nodes)
           CfgIds, CfgForms,       \* CfgForms[f] = [how, p, calls]
-          RcIds, RecClasses,      \* RecClasses[r] = [sev, msg, args, caller, cls]
+          RcIds, RecClasses,      \* RecClasses[r] = [sev, msg, args, caller, cfile, cls]
           Customs,                \* abstract custom severities (>= 100)
           RegForms,               \* "title" | "titlecolor" | "tags" | "tagsbg"
           Widths, MinWidths,
@@ -117,10 +119,11 @@ SwitchStep(s, k) == IF k = "debug" THEN [s EXCEPT !.dbg = TRUE] ELSE [s EXCEPT !
 SwitchOffStep(s) == [s EXCEPT !.dbg = FALSE, !.trc = FALSE]
 
 \* ---- the expectation: a function of the state and the record class only
-ExpRecOf(s, l, sev, msg, attrs, caller) ==
+ExpRecOf(s, l, sev, msg, attrs, caller, cfile) ==
     [fmt |-> s.mode[l], testing |-> s.testing, name |-> [has |-> s.named[l], cls |-> <<>>], sev |-> sev,
-     caller |-> caller, width |-> s.width, minw |-> s.minw, msg |-> msg, attrs |-> attrs, lc |-> LcOf(s, sev)]
-ExpRec(s, l, r) == ExpRecOf(s, l, r.sev, r.msg, Own[l] \o r.args, r.caller)
+     caller |-> caller, cfile |-> cfile, width |-> s.width, minw |-> s.minw, msg |-> msg, attrs |-> attrs,
+     lc |-> LcOf(s, sev)]
+ExpRec(s, l, r) == ExpRecOf(s, l, r.sev, r.msg, Own[l] \o r.args, r.caller, r.cfile)
 \* Where the bracketed tag (colored) / the level member (JSON, logfmt) of a severity may come
 \* from.  The harness names the sources the printed text is equal to: "builtin" (the library's
 \* table, read through Level.ShortTag / Level.String), "tags" (the short tag registered for the
